@@ -301,3 +301,48 @@ Proof.
     { apply Qmult_le_0_compat; [exact Hw|]. generalize (dot r x - y); intro t. nra. }
     lra.
 Qed.
+
+(* a vector at which the gradient vanishes minimises chi2 over all vectors *)
+Lemma gradient_zero_optimal m D x : wf m D -> length x = m -> (forall d, gdot D x d == 0) ->
+  forall z, length z = m -> chi2 D x <= chi2 D z.
+Proof.
+  intros HD Lx Hg z Lz.
+  assert (Hopt : chi2 D x <= chi2 D (vadd x (vsub z x))).
+  { apply (normal_eq_optimal m D x HD Lx); [intros d _; apply Hg | rewrite vsub_length; congruence]. }
+  rewrite (chi2_veq D _ z (vadd_vsub x z ltac:(congruence))) in Hopt. exact Hopt.
+Qed.
+
+(* ------------------------------------------------------------------ the checker grad_small, exact case *)
+Lemma Qabs_le_0 q : Qabs q <= 0 -> q == 0.
+Proof.
+  intros H. pose proof (Qabs_nonneg q) as Hn. assert (E : Qabs q == 0) by lra.
+  destruct (Qlt_le_dec q 0) as [Hq|Hq].
+  - rewrite Qabs_neg in E by lra. lra.
+  - rewrite Qabs_pos in E by exact Hq. exact E.
+Qed.
+
+Lemma forallb_combine_veq (N : mat) (sol : vec) (P : vec * Q -> bool) : forall rhs,
+  length N = length rhs -> forallb P (combine N rhs) = true ->
+  (forall r b, P (r, b) = true -> dot r sol == b) -> veq (mat_vec N sol) rhs.
+Proof.
+  induction N as [|r N IH]; intros [|b rhs] L H HP; simpl in *; try discriminate; constructor.
+  - apply andb_prop in H. destruct H as [H _]. apply HP. exact H.
+  - apply andb_prop in H. destruct H as [_ H]. apply IH; [lia | exact H | exact HP].
+Qed.
+
+(* a vector accepted by grad_small with tolerance 0 solves the normal equations, hence is the global minimiser:
+   this is what the tolerant checker approximates on the implementation's floating-point output *)
+Theorem grad_small_exact_optimal m D sol : wf m D -> grad_small 0 m D sol = true ->
+  length sol = m /\ (forall d, gdot D sol d == 0) /\ forall z, length z = m -> chi2 D sol <= chi2 D z.
+Proof.
+  intros HD H. unfold grad_small in H. apply andb_prop in H. destruct H as [H L]. apply Nat.eqb_eq in L.
+  pose proof (wf_wfl m D HD) as HL. destruct (normal_mat_shape m D HL) as [LN _].
+  assert (E : veq (mat_vec (normal_mat m D) sol) (normal_rhs m D)).
+  { apply (forallb_combine_veq _ _ _ _ ltac:(rewrite LN, normal_rhs_length by exact HL; reflexivity) H).
+    intros r b Hp. apply Qle_bool_iff in Hp.
+    assert (Z : 0 * (dot (vabs r) (vabs sol) + Qabs b) + 0 * 0 == 0) by ring. rewrite Z in Hp.
+    apply Qabs_le_0 in Hp. lra. }
+  assert (G : forall d, gdot D sol d == 0).
+  { intros d. rewrite (gdot_normal m D sol d HL). rewrite (dot_veq _ _ d d E (veq_refl d)). ring. }
+  split; [exact L|]. split; [exact G|]. apply gradient_zero_optimal; assumption.
+Qed.
